@@ -373,6 +373,19 @@ def job_unusual(_):
             return (repr(sorted((k, v if not isinstance(v, T.PObj) else sorted(v.__dict__.items())) for k, v in cd.items())), mc.dump(), md.dump(),
                     sorted(str(k) for k in mc.tasks))
         probes.append((f"two managers: {form}", thunk2))
+    # one manager, several top-level containers with definitions in each: the dump is an ORDERED list
+    for labels in (("alpha", "beta", "gamma"), ("v", "w", "x", "y"), ("s", "t")):
+        def thunk3(labels=labels):
+            m3 = xdeps.Manager()
+            cs = {lab: {"a": i + 1, "b": 0, "c": 0} for i, lab in enumerate(labels)}
+            rs = {lab: m3.ref(cs[lab], lab) for lab in labels}
+            for i, lab in enumerate(labels):
+                nxt = labels[(i + 1) % len(labels)]
+                rs[lab]["b"] = rs[lab]["a"] * 2
+                rs[nxt]["c"] = rs[lab]["b"] + rs[nxt]["a"]
+            rs[labels[0]]["a"] = 10
+            return (m3.dump(), repr(sorted((lab, sorted(c.items())) for lab, c in cs.items())))
+        probes.append((f"several containers: {labels}", thunk3))
     for label, thunk in probes:
         o = E.outcome(thunk)
         if o[0] == "ok":
